@@ -281,7 +281,8 @@ FORMULAS = [
 
 PRIMED = [
     "x' = x + 1", "b' <=> ~ b", "(x + y)' <= z'", "X b", "x' - y >= z'",
-"(IF b THEN x ELSE y)' = z",
+    "(IF b THEN x ELSE y)' = z", r"(\E x: x + 1 = y)'", r"(\A b: b \/ c)'",
+    r"(\E x, y: x + y = z)' /\ b", "(LET a == x + 1 IN a > y)'",
 ]
 
 
